@@ -27,6 +27,9 @@ fn main() {
         println!("{}", json!({"cfg": d.cfg.to_json(), "trace": d.trace}));
         if d.trace.iter().any(|st| st["res"].get("panic").is_some()) {
             std::mem::forget(d);        // poisoned mutex: the destructors would panic while unwinding
+        } else {
+            // the `unstable`-only debug assertion in `Drop for Store` may fire when records remain
+            let _ = std::panic::catch_unwind(std::panic::AssertUnwindSafe(move || drop(d)));
         }
         return;
     }
